@@ -74,6 +74,7 @@ def cases(ctx):
             c['td_styles'] = rng.choice([None, None, 'color: red', 'dict', 'callable'])
             c['tr_style'] = rng.choice([None, None, 'font-weight: bold', 'callable'])
             c['lineterminator'] = rng.choice(['\n', '\r\n', ''])
+            c['vrepr'] = rng.choice([None, None, 'repr', 'callable'])
         elif fn in ('progress', 'log_progress'):
             c['batchsize'] = rng.choice([1, 2, max(1, n), n + 1, 1000])
             c['prefix'] = rng.choice(['', 'p: '])
@@ -233,6 +234,10 @@ def judge(case, ctx):
         elif case['tr_style']:
             kw['tr_style'] = case['tr_style']
         kw['lineterminator'] = case['lineterminator']
+        if case.get('vrepr') == 'repr':
+            kw['vrepr'] = repr
+        elif case.get('vrepr') == 'callable':
+            kw['vrepr'] = lambda v: '[%s]' % (v,)
         tee, to = petl.teehtml, petl.tohtml
 
     def target(tag):
